@@ -301,10 +301,19 @@ def run_family(chk, props, devices=("naive", "eigen"), tier=None):
         sts = hist + sts
     exe = build.build_harness("h_graph")
     total_dis = 0
+    first_outs = {}
     for di, dev in enumerate(devices):
         use = sts if di == 0 else sts[: max(20, len(sts) // 5)]
-        for lines in use:
+        for si, lines in enumerate(use):
             impl, reports = vrun.run_impl(exe, lines, stateful=True, args=[dev], timeout=120)
+            if di == 0:
+                first_outs[si] = impl
+            elif "C08" in props and si in first_outs and first_outs[si] != impl:
+                k = next(i for i in range(len(lines)) if first_outs[si][i] != impl[i])
+                chk.report("graph:backends-differ:" + lines[k].split()[0],
+                           "the same history gives `%s` on %s and `%s` on %s at `%s`" % (first_outs[si][k], devices[0], impl[k], dev, lines[k]),
+                           {"family": "graph", "harness": "h_graph", "harness_args": [dev], "stateful": True, "lines": lines[: k + 1],
+                            "observed_%s" % devices[0]: first_outs[si][k], "observed_%s" % dev: impl[k]})
             model = vrun.run_model("graph", lines)
             chk.traces += 1
             for i, l in enumerate(lines):
